@@ -187,9 +187,8 @@ def declStep (st : St) (id : String) (i : Nat) (what : String) (path : Except Ob
 /-- expected `run` log: `ModTree.runWith` (= `Runtime::run`) over the abstract event set of C01/C03;
     a scripted module schedules one self-message `wake*(stage+1)` ns ahead in every start stage and
     its message handler schedules nothing -/
-def expectedLog (wake : Mod → Nat) (lenOf : Mod → Nat) (nameOf : Mod → String)
-    (parentOf : Mod → String) (kidsOf : Mod → String) (byNode : Nat → Option Mod)
-    (calls : List (Mod × Nat)) (ends : List Mod) : List String × Nat := Id.run do
+def expectedLog (wake : Mod → Nat) (look : Mod → String) (byNode : Nat → Option Mod)
+    (calls : List (Mod × Nat)) (ends : List Mod) (drops : List Mod) : List String × Nat := Id.run do
   let acts : Mod → Nat → List Rt.Act := fun m stage =>
     if wake m > 0 then [⟨false, wake m * (stage + 1), m.id⟩] else []
   let (s, log) := ModTree.runWith Rt.fesES [] (calls.length + 1) acts (Rt.build FES.init 0 .none) calls ends
@@ -197,15 +196,18 @@ def expectedLog (wake : Mod → Nat) (lenOf : Mod → Nat) (nameOf : Mod → Str
   let mut nmsg := 0
   for c in log do
     match c with
-    | .start m stage => out := out.push s!"S:{pathTok m.path}:{stage}:0"
+    | .start m stage => out := out.push s!"S:{pathTok m.path}:{stage}:0:{look m}"
     | .kernel (.handled node t) =>
       nmsg := nmsg + 1
       match byNode node with
-      | some m => out := out.push s!"M:{pathTok m.path}:{t}"
+      | some m => out := out.push s!"M:{pathTok m.path}:{t}:{look m}"
       | none => out := out.push s!"M:?{node}:{t}"
     | .kernel .internal => out := out.push "internal"
     | .kernel _ => pure ()
-    | .stop m => out := out.push s!"E:{pathTok m.path}:{s.now}:{lenOf m}:{nameOf m}:{parentOf m}:{kidsOf m}"
+    | .stop m => out := out.push s!"E:{pathTok m.path}:{s.now}:{look m}"
+  -- the returned `Sim` is dropped: module states go in tear-down order
+  for m in drops do
+    out := out.push s!"D:{pathTok m.path}"
   return (out.toList, nmsg)
 
 def firstDiff (a b : List String) : String := Id.run do
@@ -310,8 +312,9 @@ def runCase (c : Case) : String := Id.run do
           if ks.isEmpty then "-" else joinWith "," ks
         let calls := (PreSpec.startSpec D).map (fun c => (toMod c.1, c.2))
         let ends := (PreSpec.endSpec D).map toMod
-        let (exp, _) := expectedLog wakeOf (fun m => m.path.len) nameOf parentOf kidsOf
-          (fun n => D[n]?.map toMod) calls ends
+        let (exp, _) := expectedLog wakeOf
+          (fun m => s!"{m.path.len}:{nameOf m}:{parentOf m}:{kidsOf m}")
+          (fun n => D[n]?.map toMod) calls ends ((PreSpec.preorder D).map toMod)
         if exp != got then
           return s!"fail {id} op={i} kind=reject line=[run] clause=callback-log {firstDiff exp got}"
       -- model
@@ -329,8 +332,9 @@ def runCase (c : Case) : String := Id.run do
       let kidsOf (m : Mod) : String :=
         let ks := pool.filterMap (fun n => (lookupChild b m n).map (fun c => s!"{strOf n}>{pathTok c.path}"))
         if ks.isEmpty then "-" else joinWith "," ks
-      let (exp, nmsg) := expectedLog wakeOf (fun m => m.path.len) nameOf parentOf kidsOf
-        (byId b) (startCalls b.mods) (endCalls b.mods)
+      let (exp, nmsg) := expectedLog wakeOf
+        (fun m => s!"{m.path.len}:{nameOf m}:{parentOf m}:{kidsOf m}")
+        (byId b) (startCalls b.mods) (endCalls b.mods) ((teardown b).filterMap (byId b))
       if exp != got then
         return s!"fail {id} op={i} kind=diverge line=[run] clause=callback-log {firstDiff exp got}"
       st := { st with msgs := nmsg, starts := (startCalls b.mods).length }
@@ -356,7 +360,8 @@ def runCase (c : Case) : String := Id.run do
     | _ => return s!"fail {id} op={i} kind=badline detail={line}"
   let maxSt := maxStage st.b.mods
   let nt := st.midins > 0 && maxSt ≥ 2 && st.mods ≥ 4 && ran && st.spec.isSome
-  return s!"ok {id} nt={if nt then 1 else 0} ops={i} mods={st.mods} midins={st.midins} rejects={st.rejects} starts={st.starts} msgs={st.msgs} pathops={st.pathops} weird={st.weird} indomain={if st.spec.isSome then 1 else 0}"
+  let maxDepth := st.b.mods.foldl (fun a m => max a m.path.len) 0
+  return s!"ok {id} nt={if nt then 1 else 0} deep={if maxDepth ≥ 6 then 1 else 0} ops={i} mods={st.mods} midins={st.midins} rejects={st.rejects} starts={st.starts} msgs={st.msgs} pathops={st.pathops} weird={st.weird} indomain={if st.spec.isSome then 1 else 0}"
 
 def main (stdin : IO.FS.Stream) : IO Unit := do
   let cases ← readCases stdin
